@@ -6,7 +6,9 @@
    Part D  arithmetic relations
    Part E  decoding the record views: of_view (view r) = data_of r
    Part F  error views and the terminal report
-   Part G  what the parser hands over is well-formed (valid UTF-8, no line feeds, valid times and dates) *)
+   Part G  what the parser hands over is well-formed (valid UTF-8, no line feeds, valid times and dates)
+   Part H  every string of a document built from parsed files is valid UTF-8 (so nothing is replaced)
+   Part I  the statements of C20 for one file and for several *)
 From Klog Require Import Base.Prelude Base.Utf8 Model.Calendar Model.Values Model.Record Model.Lines Model.Parser
   Model.Eval Model.Tags Model.Json Model.JsonView.
 From Klog Require Import Proofs.Values Proofs.SpecValues Proofs.Lines Proofs.Parser Proofs.TagsUtf8 Proofs.Tags Proofs.Json.
@@ -978,7 +980,7 @@ Qed.
 Lemma Forall_skipn {A} (P : A -> Prop) n l : Forall P l -> Forall P (skipn n l).
 Proof. revert l. induction n; intros l H; [exact H|]. destruct l; [constructor|]. inversion H; subst. apply IHn. assumption. Qed.
 
-Lemma good_nil : good_line [].
+Lemma good_line_nil : good_line [].
 Proof. split; [reflexivity | intros []]. Qed.
 
 (* ---- times and dates the value parsers return ---- *)
@@ -1089,7 +1091,7 @@ Lemma first_line_good cs pos : Forall rune_ok cs ->
 Proof.
   intros H. cbv zeta. destruct (is_space_or_tab (peek cs pos)).
   - split; [|discriminate]. constructor; [|constructor]. apply str_good, Forall_skipn, H.
-  - split; [|discriminate]. constructor; [apply good_nil | constructor].
+  - split; [|discriminate]. constructor; [apply good_line_nil | constructor].
 Qed.
 
 Lemma parse_entries_wf style : forall fuel ln ls es errs es' errs',
